@@ -31,13 +31,16 @@ MANIFEST = dict(
                 "wrote on the same flow (C01_prefix, invariant by induction over schedules). The model is replayed "
                 "against the real classes and the real server.main closures on every run; the oracle checks the prefix "
                 "relation on the real run after every step and completeness after a fair drain."),
-    level_note=("Trusted: Lean kernel; the socket/pipe environment model; the harness fakes. Completeness ('eventually "
-                "delivered'): proved is that no reachable state is stuck - a world that none of the loop's own moves changes "
-                "has delivered everything (C02_no_stuck_state, C02_stuck_is_complete in Props/C02.lean, over the same model) - "
-                "that no wake-up is lost per handler (C02_wakeup_*), and that every run of effective loop moves is at most "
-                "worldMu long and, continued until no move changes anything, ends with everything delivered "
-                "(C02_bounded_work, C02_maximal_run_delivers). That the real scheduler takes an effective move whenever one exists "
-                "is checked on the real code by the real-loop drain oracle, not proved. Real kernel TCP and select are outside."),
+    level_note=("Trusted: Lean kernel; the socket/pipe environment model; the harness fakes; that the operating system's "
+                "select answers truthfully. Completeness ('eventually delivered') is a theorem as well (C01_complete in "
+                "Props/C01_Complete.lean, built and audited by this check; it rests on the C02 machinery): after ANY history of "
+                "the two select loops in their own alphabet (accepts, endpoint writes and closes, check_fullness, foreign "
+                "traffic, runonce passes with any select answer and any socket behaviour, the model itself choosing the "
+                "callbacks as ssnet.runonce does), once a pass at each end no longer lowers the termination measure - which "
+                "happens after at most worldMu effective passes - every endpoint whose socket is still open has received "
+                "exactly what the tunnel read from its peer, nothing is left unread while the tunnel end still reads, and "
+                "every close has been passed on. The model's pass is compared with the real ssnet.runonce on every pass of "
+                "every run (state and number of callbacks). Real kernel TCP and select are outside."),
     technique="Lean 4 proof (stream-decomposition invariant over all schedules) + differential replay on the real tunnel classes",
 )
 
